@@ -193,3 +193,34 @@ def param_unused(P, rep, key, param_local, rule="R-VERBATIM.capture"):
         rep.viol(rule, key + " writer-used", P.where(fn), "parameter _%d (the caller's writer) is used; capture must print nothing" % param_local)
     else:
         rep.ok(rule, key, P.where(fn), "writer parameter is never read")
+
+
+def capture_binds_text(P, rep, key, rule="R-VERBATIM.capture"):
+    """capture binds exactly the rendered text: one set_global whose value is Value::scalar(String::from_utf8(buffer)), unconditionally."""
+    from origins import backward_slice
+    fn = P.fn_by_key(key)
+    sg = [(bi, t) for bi, t in P.calls(fn) if t.get("f") and t["f"]["id"].endswith("Runtime::set_global")]
+    site = "Capture binds its text"
+    if len(sg) != 1:
+        rep.viol(rule, site, P.where(fn), "expected exactly one set_global, found %d" % len(sg))
+        return
+    bi, t = sg[0]
+    ol = op_local(t["args"][2])
+    locs, calls = backward_slice(fn, ol[0]) if ol else (set(), [])
+    names = [c["f"]["name"] for c in calls if c.get("f")]
+    nil = [st for b in fn.blocks for st in b["s"] if st[0] == "a" and st[2]["k"] == "agg" and st[2].get("id", "").endswith("values::Value") and st[2].get("vname") != "Scalar"]
+    sw = []
+    rc = [b2 for b2, t2 in P.calls(fn) if t2.get("f") and t2["f"]["id"].endswith("Renderable::render_to")]
+    if rc:
+        from r_pair import ok_successor
+        s_ = ok_successor(P, fn, rc[0])
+        region = P.reach(fn, [s_], stop={bi}) if s_ is not None else set()
+        sw = [b2 for b2 in region if fn.blocks[b2]["t"]["k"] == "switch" and b2 != s_]
+    if not any("from_utf8" in n for n in names) or not any(n.endswith("Value::scalar") for n in names):
+        rep.viol(rule, site, P.where(fn, t["line"]), "the bound value is not Value::scalar(String::from_utf8(captured bytes))")
+    elif nil:
+        rep.viol(rule, site, P.where(fn), "capture can bind a non-string value (%s): the binding must be exactly the text the body printed, even when empty" % nil[0][2].get("vname"))
+    elif sw:
+        rep.viol(rule, site, P.where(fn), "the binding is conditional on the captured text")
+    else:
+        rep.ok(rule, site, P.where(fn, t["line"]), "set_global(id, Value::scalar(from_utf8(buffer))) unconditionally after the body rendered")
